@@ -1,8 +1,16 @@
 module verif/gohelpers
 
-go 1.23
+go 1.23.0
+
+toolchain go1.23.5
 
 require (
 	github.com/anishathalye/porcupine v1.3.0
+	golang.org/x/tools v0.31.0
 	gopkg.in/yaml.v3 v3.0.1
+)
+
+require (
+	golang.org/x/mod v0.24.0 // indirect
+	golang.org/x/sync v0.12.0 // indirect
 )
